@@ -619,6 +619,46 @@ theorem sys_retries_exact (P : SProto Q) (cls : Bytes → Client.Ev) (c : LossSy
 /-- close is idempotent in every state -/
 theorem sys_close_idempotent (s : Sys Q) : LossSys.closeConn (LossSys.closeConn s) = LossSys.closeConn s := rfl
 
+/-- recovery, for every `max_retry = k + 1 ≥ 1`: when the loss surfaces in the first attempt as a connection error or
+    end-of-stream (`hloss`) and the peer accepts connections again by the end of the backoff, answers routing
+    activations and answers the request (`Answers`: acknowledged and read as the message `d`, a final reply), the call
+    returns exactly that reply, through exactly one new connection - whatever state the loss left behind -/
+theorem sys_recovers (P : SProto Q) (cls : Bytes → Client.Ev) (lim : Client.Limits) (req : Bytes) (tmo : Option Nat) (k : Nat)
+    (s : Sys Q) (es : List SEv) (r : PRes) (s1 : Sys Q) (es1 : List SEv) (b d : Bytes)
+    (hloss : LossSys.opRequest P s es req tmo = (r, s1, es1)) (hr : r = .connErr ∨ r = .eos)
+    (hup : s1.up = true) (hsrv : s1.serve = some b) (hra : s1.raOn = true) (hq : LossSys.Quiet es1)
+    (ha : LossSys.Answers P req b d) (hd : d ≠ []) (hcls : cls d = .posFinal) :
+    (LossSys.request P cls { maxRetry := k + 1, lim } req tmo s es).1 = .reply d ∧
+    (LossSys.request P cls { maxRetry := k + 1, lim } req tmo s es).2.1.nconn = s1.nconn + 1 :=
+  LossSys.recovers P cls lim req tmo k s es r s1 es1 b d hloss hr hup hsrv hra hq ha hd hcls
+
+/-- close is harmless: after `close()` - once or twice, in any state, also after a loss - the next request with
+    `max_retry ≥ 1` reconnects and returns the peer's reply (close, then reconnect, then request works) -/
+theorem sys_close_harmless (P : SProto Q) (cls : Bytes → Client.Ev) (lim : Client.Limits) (req : Bytes) (tmo : Option Nat) (k : Nat)
+    (s : Sys Q) (es : List SEv) (b d : Bytes)
+    (hup : s.up = true) (hsrv : s.serve = some b) (hra : s.raOn = true) (hq : LossSys.Quiet es)
+    (ha : LossSys.Answers P req b d) (hd : d ≠ []) (hcls : cls d = .posFinal) :
+    LossSys.closeConn (LossSys.closeConn s) = LossSys.closeConn s ∧
+    (LossSys.request P cls { maxRetry := k + 1, lim } req tmo (LossSys.closeConn s) es).1 = .reply d ∧
+    (LossSys.request P cls { maxRetry := k + 1, lim } req tmo (LossSys.closeConn s) es).2.1.nconn = s.nconn + 1 := by
+  refine ⟨rfl, ?_⟩
+  have h := LossSys.recovers P cls lim req tmo k _ es .connErr _ es b d
+    (LossSys.opRequest_closed P (LossSys.closeConn s) es req tmo rfl) (.inl rfl) hup hsrv hra hq ha hd hcls
+  exact h
+
+/-- a backlog of any length never hides the end of the stream: once the peer has closed / reset the connection (or the
+    transport is closed) every transport read returns at once - a queued message, end-of-stream or a connection error,
+    never a timeout, never blocked - with or without caller timeout -/
+theorem sys_backlog_read_ends (P : SProto Q) (s : Sys Q) (es : List SEv) (tmo : Option Nat)
+    (h : s.conn.closed = true ∨ s.conn.streamEnded = true) :
+    (LossSys.opRead P s es tmo).1 ≠ .blocked ∧ (LossSys.opRead P s es tmo).1 ≠ .timeout ∧
+    (LossSys.opRead P s es tmo).2.1.now = s.now ∧ (LossSys.opRead P s es tmo).2.2 = es :=
+  LossSys.opRead_ended P s es tmo h
+
+-- `Answers` is satisfiable: the line `62 01` answers on a line transport
+example : LossSys.Answers LossSys.linesS exReq [0x36, 0x32, 0x30, 0x31, 0x0A] [0x62, 0x01] :=
+  fun _ => ⟨_, _, rfl, rfl, rfl⟩
+
 /-! examples: the hypotheses are satisfiable and the exact bound is attained -/
 
 theorem exCls_no_pending : ∀ d, exCls d ≠ .pending := by intro d; unfold exCls; split <;> simp
